@@ -137,6 +137,8 @@ const EVENTS: [Ev; 27] = [
 pub struct C10 {
     keepalive: u16,
     server: Option<u16>,
+    /// Maximum Packet Size of the CONNACK (2..5: a PINGREQ still fits, hardly anything else does)
+    max_packet: Option<u32>,
 }
 
 fn noop_waker() -> Waker {
@@ -250,7 +252,10 @@ enum After {
 
 impl Model for C10 {
     fn name(&self) -> String {
-        format!("C10-keepalive-{}-server-{:?}", self.keepalive, self.server)
+        match self.max_packet {
+            None => format!("C10-keepalive-{}-server-{:?}", self.keepalive, self.server),
+            Some(m) => format!("C10-keepalive-{}-server-{:?}-maximum-packet-size-{}", self.keepalive, self.server, m),
+        }
     }
 
     fn alphabet(&self) -> Vec<String> {
@@ -264,7 +269,10 @@ impl Model for C10 {
             let mut trace: Vec<String> = Vec::new();
             let out = with_session(&spec, |bench, s| {
                 let mut viol: Vec<(String, String)> = Vec::new();
-                let props = self.server.map(|k| vec![Prop { id: 0x13, val: PVal::U16(k) }]).unwrap_or_default();
+                let mut props = self.server.map(|k| vec![Prop { id: 0x13, val: PVal::U16(k) }]).unwrap_or_default();
+                if let Some(m) = self.max_packet {
+                    props.push(Prop { id: 0x27, val: PVal::U32(m) });
+                }
                 let Conn::Ok(mut conn, id) = connect(bench, s, &connack(false, props)) else { panic!("machinery: connect failed") };
                 let mut mon = Mon { last_tx: clock::now() / clock::TICKS_PER_MS, ..Default::default() };
                 let mut seen = bench.written(id).len();
@@ -496,7 +504,8 @@ impl Model for C10 {
                                             break;
                                         }
                                         Ev::InboundQos1ThenPublishAtTimerWithStalledWrite => match wake {
-                                            Some(t) if t > clock::now() && mon.ping_at.is_none() && e_ms > 0 => {
+                                            // (under a Maximum Packet Size of 2..4 the PUBACK itself cannot be sent)
+                                            Some(t) if t > clock::now() && mon.ping_at.is_none() && e_ms > 0 && self.max_packet.is_none() => {
                                                 bench.push(id, &[0x32, 0x07, 0x00, 0x01, b'a', 0x00, 0x07, 0x00, 0x55]);
                                                 log!("Inbound QoS 1 publish at {} ms", now_ms());
                                                 res = After::InboundThenPub(t);
@@ -786,17 +795,35 @@ pub fn pairs(tier: Tier) -> Vec<(u16, Option<u16>)> {
     }
 }
 
+fn models(tier: Tier) -> Vec<C10> {
+    let mut v: Vec<C10> = pairs(tier).into_iter().map(|(k, s)| C10 { keepalive: k, server: s, max_packet: None }).collect();
+    // a Maximum Packet Size that a PINGREQ just fits
+    if tier == Tier::Quick {
+        v.push(C10 { keepalive: 10, server: None, max_packet: Some(2) });
+        v.push(C10 { keepalive: 1, server: None, max_packet: Some(4) });
+    } else {
+        for k in [1u16, 3, 10, 60] {
+            for s in [None, Some(5u16)] {
+                for m in [2u32, 3, 4, 5] {
+                    v.push(C10 { keepalive: k, server: s, max_packet: Some(m) });
+                }
+            }
+        }
+    }
+    v
+}
+
 pub fn run(tier: Tier, caps: &Caps) -> Vec<FamilyReport> {
     let mut out = Vec::new();
-    for (k, s) in pairs(tier) {
-        let m = C10 { keepalive: k, server: s };
+    for m in models(tier) {
+        let (k, s) = (m.keepalive, m.server);
         let cc = ClosureCaps {
             max_states: if tier == Tier::Quick { 200_000 } else { 2_000_000 },
             max_depth: 200,
             wall: caps.wall,
             threads: caps.threads,
         };
-        let bounds = json!({"keepalive_s": k, "server_keepalive_s": s, "round_trip_bound_ms": ROUND_TRIP_MS, "state_cap": cc.max_states,
+        let bounds = json!({"keepalive_s": k, "server_keepalive_s": s, "maximum_packet_size": m.max_packet, "round_trip_bound_ms": ROUND_TRIP_MS, "state_cap": cc.max_states,
             "oracles": "G0 keep-alive 0: no PINGREQ; G1 gap between completed client packets (and time waited with nothing sent) <= effective keep-alive (+1 ms per late timer); G2 unanswered PINGREQ => disconnected at, and not before, completion + 5 s; G3 PINGRESP consumed before the bound => no disconnect (exact coincidence: either)"});
         out.push(close(&m, "C10", &cc, bounds));
     }
@@ -804,8 +831,7 @@ pub fn run(tier: Tier, caps: &Caps) -> Vec<FamilyReport> {
 }
 
 pub fn replay(name: &str, hist: &[u8]) -> Option<(StepOut, Vec<String>)> {
-    for (k, s) in pairs(Tier::Thorough).into_iter().chain(pairs(Tier::Quick)) {
-        let m = C10 { keepalive: k, server: s };
+    for m in models(Tier::Thorough).into_iter().chain(models(Tier::Quick)) {
         if m.name() == name {
             return Some(m.run(hist, true));
         }
